@@ -5,7 +5,7 @@ from fractions import Fraction
 
 from .. import astq
 from .. import sym as S
-from ..model import AnalysisError
+from ..model import AnalysisError, FunctionInfo
 from ..symeval import SymEval
 from . import cli_common as cc
 
@@ -22,16 +22,29 @@ def bank(prog, name):
     return c
 
 
-def ctor_eval(prog, name, seed=None):
+def ctor_eval(prog, name, seed=None, inline=()):
     c = bank(prog, name)
     f = prog.own_method(c, "__init__")
-    ev = SymEval(prog, f, seed=seed or {}).run()
+    ev = SymEval(prog, f, seed=seed or {}, inline=inline).run()
     return c, f, ev
+
+
+def _range_helpers(prog, f):
+    """package-level helper functions the constructor hands both range ends to (validation factored out)"""
+    out = []
+    for c in astq.func_calls(f):
+        t = prog.resolve(f.module, c.func, f)
+        if isinstance(t, FunctionInfo) and t.cls is None:
+            names = {x.id for a in list(c.args) + [k.value for k in c.keywords] for x in ast.walk(a) if isinstance(x, ast.Name)}
+            if {"low_hz", "high_hz"} <= names and any(isinstance(x, ast.Raise) for x in t.body_nodes()):
+                out.append(t.qualname)
+    return out
 
 
 def range_guard(prog, name):
     """E of the condition under which the constructor raises for its frequency range."""
-    c, f, ev = ctor_eval(prog, name)
+    c0 = bank(prog, name)
+    c, f, ev = ctor_eval(prog, name, inline=_range_helpers(prog, prog.own_method(c0, "__init__")))
     hits = []
     for g, r in ev.raises:
         syms = set(S.symbols(g))
@@ -75,3 +88,32 @@ def effective_high(ev):
 def loop_body_values(prog, f, loop, names, seed=None):
     ev = cc.body_eval(prog, f, loop.body, seed=seed)
     return {n: ev.env.get(n) for n in names}, ev
+
+
+def per_filter_attrs(prog, name, seed=None):
+    """{"self._x": E} for attributes the constructor fills with one element per filter
+    (``L.append(v)`` in the edge loop, then ``self._x = tuple(L)``): E is v as computed in that
+    loop.  Lets the response methods' ``self._x[filt_idx]`` be read through to its definition."""
+    c, f, ev = ctor_eval(prog, name, seed)
+    selfn = f.params[0]
+    lists = {}
+    for n in f.body_nodes():
+        if isinstance(n, ast.Assign) and len(n.targets) == 1 and astq.is_self_attr(n.targets[0], selfn):
+            v = n.value
+            if isinstance(v, ast.Call) and isinstance(v.func, ast.Name) and v.func.id in ("tuple", "list") and len(v.args) == 1 and isinstance(v.args[0], ast.Name):
+                lists[v.args[0].id] = n.targets[0].attr
+            elif isinstance(v, ast.Name):
+                lists[v.id] = n.targets[0].attr
+    pm = astq.parents(f)
+    out = {}
+    for call in astq.func_calls(f):
+        if astq.attr_call(call, "append") and isinstance(call.func.value, ast.Name) and call.func.value.id in lists and len(call.args) == 1:
+            st = astq.enclosing_stmt(pm, call)
+            if not ev.reached(st):
+                continue
+            attr = selfn + "." + lists[call.func.value.id]
+            if attr in out:
+                out[attr] = None  # appended at several sites: not a plain per-filter value
+            else:
+                out[attr] = ev.eval_at(st, call.args[0])
+    return {k: v for k, v in out.items() if v is not None}, f, ev
